@@ -15,9 +15,10 @@ from vf.gen import url as G
 from vf.props import c04 as N4
 from vf.props import c06 as N6
 
+MIN_RANDOM = 150  # random iterations run per shard whatever the wall-clock budget (floors must not depend on machine load)
 SHARDS = {"quick": 4, "thorough": 16}
 BUDGET = {"quick": 22, "thorough": 240}
-MIN_CASES = {"quick": 3000, "thorough": 100000}
+MIN_CASES = {"quick": 800, "thorough": 50000}
 RULE = ("inputs: C04/C06 grid bases and their irrelevant-family variants (markers, language labels, suffixes of 1-3 labels, IDN / punycode / upper-case hosts), wrappers (leading/trailing "
         "whitespace and raw control characters), redirect-carrying URLs, seeded random URL cases, and bare hostnames derived from them; x strip_suffix, normalize_amp, infer_redirection, "
         "suffix_aware and the variant's own options. Each helper is compared with the host / stems of the URL-level function on the same input. A case is (helper, input, options); "
@@ -273,7 +274,7 @@ def run(ctx):
         n = 0
         lim = 4000 if ctx.tier == "quick" else 10 ** 7
         idx = 0
-        while ctx.time_left() and n < lim:
+        while (ctx.time_left() or n < MIN_RANDOM) and n < lim:
             n += 1
             if n % 3:
                 h, (p, tr), q, f = grid[(n * 7 + ctx.shard * 13) % len(grid)] if n < len(grid) else rng.choice(grid)
